@@ -975,5 +975,39 @@ def r_nonzero(f):
             R.inst(b.ident, "%s #%d is non-zero in every abstract state reaching it (%d states)" % (e["what"], o, e["n"]), ok)
             if not ok:
                 R.fail(b.ident, "%s#%d" % (e["what"], o), "%s: the %s can be zero on a path that reaches it (e.g. an empty array / view has zero columns): the call panics where the operation is specified for every shape including empty ones" % (b.ident, e["what"]), b.where(e["span"]))
+    # is_empty(): true exactly for the empty array.  Under the zero rule the receiver is (0,0) or (non-zero, non-zero): every
+    # `return true` is reached only from the first state, every `return false` only from the second
+    for b in f.fn_bodies:
+        if b.name != "is_empty" or b.kind != "AssocFn" or not (b.trait_provided or b.impl_trait) or (b.trait_head or "") not in ("TooDeeOps",):
+            continue
+        bd = b.d
+        Z = ZFn(bd, {})
+        gk_c, gk_r = ("G", 1, "num_cols"), ("G", 1, "num_rows")
+        keys_ = [gk_c, gk_r]
+        # locals that receive the getters' results
+        for bl in bd["blocks"]:
+            t = bl["term"]
+            if t and t["k"] == "call" and (t["func"].get("fn") or {}).get("name") in ("num_cols", "num_rows"):
+                k_ = Z.canon(t["dest"])
+                if k_ and k_ not in keys_:
+                    keys_.append(k_)
+        rets = []
+
+        def sinks_(bb, si, node, states, keys):
+            if isinstance(node, dict) and node.get("k") == "assign" and node["p"]["local"] == 0 and not node["p"]["proj"] and node["rv"]["k"] == "use" and node["rv"]["o"]["k"] == "const" and node["rv"]["o"].get("ty") == "bool":
+                val = node["rv"]["o"]["val"] in ("true", "const true")
+                for V in states:
+                    rets.append((val, V[gk_c], V[gk_r]))
+        try:
+            Z.run(keys_, [(gk_r, gk_c)], sinks_)
+        except RecursionError:
+            continue
+        if not rets:
+            continue
+        n += 1
+        badr = sorted({(v, c, r) for v, c, r in rets if v != (c == "Z")})
+        R.inst(b.ident, "is_empty() returns true exactly when the dimensions are zero (%d abstract return states)" % len(rets), not badr)
+        if badr:
+            R.fail(b.ident, "is_empty:%s" % ",".join("%s@%s%s" % x for x in badr), "%s returns %s for an array whose dimensions are %s: is_empty() no longer means 'no cells'" % (b.ident, badr[0][0], "zero" if badr[0][1] == "Z" else "non-zero"), b.where())
     R.require_floor(n, 2, "zero-sensitive sites (divisions, chunks*, step_by)")
     return R, n
